@@ -24,6 +24,7 @@ type modSet struct {
 	descs   map[string]compDesc
 	named   []string // components named by contracts of callees
 	hasExpr bool     // some callee contract names locations by expression: globals and ghost state may change
+	boxed   bool     // some callee writes through pointers boxed in interface slices
 }
 
 func (m *modSet) add(d compDesc) {
@@ -45,6 +46,9 @@ func (m *modSet) union(o *modSet) {
 	}
 	if o.hasExpr {
 		m.hasExpr = true
+	}
+	if o.boxed {
+		m.boxed = true
 	}
 	m.named = append(m.named, o.named...)
 	for k, v := range o.descs {
@@ -183,6 +187,17 @@ func (eng *Engine) modSetOf(fn *ssa.Function) *modSet {
 			}
 		}
 	}
+	if m.boxed {
+		for _, b := range fn.Blocks {
+			for _, in := range b.Instrs {
+				if mi, ok := in.(*ssa.MakeInterface); ok {
+					if pt, ok := mi.X.Type().Underlying().(*types.Pointer); ok && !freshRoot(mi.X, 0) {
+						m.addObject(pt.Elem())
+					}
+				}
+			}
+		}
+	}
 	eng.modSets[fn] = m
 	return m
 }
@@ -277,17 +292,44 @@ func (eng *Engine) modSpec(m *modSet, sp *FuncSpec, cc *ssa.CallCommon) {
 		return
 	}
 	if hasModifies(sp) {
-		// named locations: approximate by the pointees of all arguments plus listed components; ghost
-		// variables are never part of an inferred frame (only contracts speak about them)
-		for _, a := range cc.Args {
-			eng.modArg(m, a)
-		}
 		if len(sp.ModComps) > 0 {
 			m.named = append(m.named, sp.ModComps...)
 		}
 		for _, c := range sp.Clauses {
-			if c.Kind == KModifies {
-				m.hasExpr = true
+			if c.Kind != KModifies {
+				continue
+			}
+			t := strings.TrimSpace(c.Text)
+			switch {
+			case strings.HasPrefix(t, "pointees("):
+				// writes through the pointers boxed in a []interface{} argument: every function on the
+				// call chain contributes the pointers it boxes (see modSetOf)
+				m.boxed = true
+				continue
+			case strings.HasPrefix(t, "elems("), strings.HasPrefix(t, "map("), strings.HasPrefix(t, "ptr("):
+				t = t[strings.Index(t, "(")+1 : len(t)-1]
+			}
+			// root identifier of the location expression
+			root := t
+			for i, r := range t {
+				if !(r == '_' || r >= 'a' && r <= 'z' || r >= 'A' && r <= 'Z' || r >= '0' && r <= '9') {
+					root = t[:i]
+					break
+				}
+			}
+			found := false
+			for i, pn := range sp.ParamNames {
+				if pn == root && i < len(cc.Args) {
+					eng.modArg(m, cc.Args[i])
+					found = true
+				}
+			}
+			if cc.IsInvoke() && len(sp.ParamNames) > 0 && sp.ParamNames[0] == root {
+				m.addPointee(cc.Value.Type())
+				found = true
+			}
+			if !found {
+				m.hasExpr = true // a global or ghost variable
 			}
 		}
 	}
